@@ -24,6 +24,9 @@ type Fault struct {
 	// Scalars: the kind-appropriate scalar accessors (AsBool … AsLink, also of map keys) count and fail too —
 	// a node whose value lives somewhere else (an ADL, a lazily loaded node) can fail there as well
 	Scalars bool
+	// Lookups: successful map lookups count and fail too (list lookups always do) — a node backed by storage
+	// (a sharded ADL with a missing shard) can fail to produce a child its iterator just listed
+	Lookups bool
 }
 
 func (f *Fault) tickScalar() error {
@@ -109,6 +112,11 @@ func (n Node) LookupByString(key string) (datamodel.Node, error) {
 	}
 	for i := range n.v.M {
 		if n.v.M[i].K == key {
+			if n.f != nil && n.f.Lookups {
+				if err := n.f.tick(); err != nil {
+					return nil, err
+				}
+			}
 			return wrap(&n.v.M[i].V, n.f), nil
 		}
 	}
